@@ -558,7 +558,10 @@ func propC20(c cacheCase, o *hx.Obs) *hx.Failure {
 		fl.Sig = strings.Replace(fl.Sig, "C19/", "C20/source-build/", 1)
 		return fl
 	}
-	cachePath := filepath.Join(dir, name+".cache")
+	cachePath, ferr := findCacheFile(dir, name)
+	if ferr != nil {
+		return hx.Failf("C20/save/no-cache-file", "building with the cache enabled wrote no cache file: %v", ferr)
+	}
 	good, rerr := os.ReadFile(cachePath)
 	if rerr != nil {
 		return hx.Failf("C20/save/no-cache-file", "no cache file written: %v", rerr)
@@ -649,6 +652,101 @@ func propC20(c cacheCase, o *hx.Obs) *hx.Failure {
 	return nil
 }
 
+// findCacheFile returns the file that a build with the cache enabled has written next to the book file
+// (the naming scheme of the cache is not part of the property: whatever appears besides the source is it).
+func findCacheFile(dir, name string) (string, error) {
+	es, err := os.ReadDir(dir)
+	if err != nil {
+		return "", err
+	}
+	var others []string
+	for _, e := range es {
+		if e.Name() != name && !e.IsDir() {
+			others = append(others, e.Name())
+		}
+	}
+	if len(others) != 1 {
+		return "", fmt.Errorf("files besides the book file: %v", others)
+	}
+	return filepath.Join(dir, others[0]), nil
+}
+
+// ---- several book files side by side ------------------------------------------
+// The cache of one book must never be taken for another book's: file names that share a stem, an
+// extension or a prefix, different formats, in one directory, initialised in a drawn order.
+
+type sideBook struct {
+	Name   string     `json:"name"`
+	Format int        `json:"format"` // 0 simple, 1 san, 2 pgn
+	Games  []bookGame `json:"games"`
+}
+
+type sideCase struct {
+	Books []sideBook `json:"books"`
+	Order []int      `json:"order"`
+}
+
+func propC20Side(c sideCase, o *hx.Obs) *hx.Failure {
+	dir, err := os.MkdirTemp("", "verifcacheside")
+	if err != nil {
+		panic(err)
+	}
+	defer os.RemoveAll(dir)
+	formats := []openingbook.BookFormat{openingbook.Simple, openingbook.San, openingbook.Pgn}
+	models := make([]bookModel, len(c.Books))
+	for i, b := range c.Books {
+		bc := bookCase{Games: b.Games}
+		text := renderBook(bc, formats[b.Format])
+		if err := os.WriteFile(filepath.Join(dir, b.Name), []byte(text), 0o644); err != nil {
+			panic(err)
+		}
+		models[i] = modelOf(b.Games)
+	}
+	seenBefore := map[int]bool{}
+	for step, bi := range c.Order {
+		b := c.Books[bi]
+		var book *openingbook.Book
+		var ierr error
+		done := make(chan *hx.Failure, 1)
+		go func() {
+			done <- hx.Guard("C20/side/initialize", func() *hx.Failure {
+				book = openingbook.NewBook()
+				ierr = book.Initialize(dir, b.Name, formats[b.Format], true, false)
+				return nil
+			})
+		}()
+		select {
+		case fl := <-done:
+			if fl != nil {
+				return fl
+			}
+		case <-time.After(8 * time.Second):
+			hx.Die("C20/side/hang", fmt.Sprintf("Initialize(%s) with other books' caches present did not return within 8 s", b.Name))
+		}
+		if ierr != nil {
+			return hx.Failf("C20/side/error", "step %d: Initialize(%s) returned %v", step, b.Name, ierr)
+		}
+		o.Evals(1)
+		var names []string
+		for _, x := range c.Books {
+			names = append(names, x.Name)
+		}
+		what := fmt.Sprintf("step %d: book file %q initialised with the cache enabled in a directory holding %q (order %v)", step+1, b.Name, names, c.Order)
+		if fl := compareBook(book, &models[bi], what); fl != nil {
+			fl.Sig = strings.Replace(fl.Sig, "C19/", "C20/side-by-side/", 1)
+			return fl
+		}
+		if seenBefore[bi] {
+			o.Label("side-by-side:reload-after-other-book")
+		}
+		seenBefore[bi] = true
+	}
+	if len(c.Books) > 1 {
+		o.NTKey(fmt.Sprintf("%v", c))
+	}
+	return nil
+}
+
 func TestC19(t *testing.T) {
 	r := hx.NewRec(t, "C19")
 	defer r.Finish()
@@ -700,7 +798,11 @@ func TestC20(t *testing.T) {
 		if _, err := buildBook(text, openingbook.San, true, dir, "b.san"); err != nil {
 			return hx.Failf("C20/build/error", "%v", err)
 		}
-		good, _ := os.ReadFile(filepath.Join(dir, "b.san.cache"))
+		cp, ferr := findCacheFile(dir, "b.san")
+		if ferr != nil {
+			return hx.Failf("C20/save/no-cache-file", "building with the cache enabled wrote no cache file: %v", ferr)
+		}
+		good, _ := os.ReadFile(cp)
 		for off := 0; off < len(good); off++ {
 			if f := propC20(cacheCase{Games: c.Games, Kind: "prefix", Offset: off, Twice: off%16 == 0}, o); f != nil {
 				return f
@@ -710,6 +812,21 @@ func TestC20(t *testing.T) {
 		o.Label("book-with-all-prefixes")
 		return nil
 	})
+
+	// several book files (related names, different formats and games) in one directory
+	hx.Sub(r, "side-by-side", r.N(60, 600), func(t *rapid.T) sideCase {
+		nameSets := [][]string{{"book.san", "book.pgn", "book.txt"}, {"book", "book.san", "book.san.old"}, {"a.txt", "b.txt", "ab.txt"}, {"book.v1.pgn", "book.v2.pgn", "book.pgn"}, {"Book.txt", "book.txt", "book.TXT"}}
+		names := nameSets[rapid.IntRange(0, len(nameSets)-1).Draw(t, "names")]
+		n := rapid.IntRange(2, 3).Draw(t, "nbooks")
+		var c sideCase
+		for i := 0; i < n; i++ {
+			c.Books = append(c.Books, sideBook{Name: names[i], Format: rapid.IntRange(0, 2).Draw(t, "format"), Games: genGames(t, 6, 8, false)})
+		}
+		for i := rapid.IntRange(n, 3*n).Draw(t, "steps"); i > 0; i-- {
+			c.Order = append(c.Order, rapid.IntRange(0, n-1).Draw(t, "which"))
+		}
+		return c
+	}, propC20Side)
 
 	hx.Sub(r, "corruptions", r.N(250, 1500), func(t *rapid.T) cacheCase {
 		return cacheCase{Games: genGames(t, 10, 10, false), Kind: rapid.SampledFrom([]string{"flip", "flip", "splice", "garbage", "prefix"}).Draw(t, "kind"),
